@@ -201,7 +201,8 @@ void rewrite_loop_in_place(Chunk *keyword, E_Token desired_type, const char *des
 
 static Chunk *find_start_brace(Chunk *pc)
 {
-   while (!pc->IsBraceOpen())
+   while (  pc->IsNotNullChunk()
+         && !pc->IsBraceOpen())
    {
       pc = pc->GetNextNcNnl();
    }
@@ -251,7 +252,14 @@ void rewrite_infinite_loops()
    {
       if (pc->Is(CT_DO))
       {
-         Chunk *start_brace   = find_start_brace(pc);
+         Chunk *start_brace = find_start_brace(pc);
+
+         if (  start_brace->IsNullChunk()
+            || start_brace->TestFlags(PCF_IN_PREPROC) != pc->TestFlags(PCF_IN_PREPROC))
+         {
+            // the body of the loop is not part of the macro that holds the keyword
+            continue;
+         }
          Chunk *end_brace     = start_brace->GetClosingParen();
          Chunk *while_keyword = end_brace->GetNextNcNnl();
 
@@ -298,7 +306,14 @@ void rewrite_infinite_loops()
                  && for_needs_rewrite(pc, desired_type)))
       {
          Chunk *start_brace = find_start_brace(pc);
-         Chunk *end_brace   = start_brace->GetClosingParen();
+
+         if (  start_brace->IsNullChunk()
+            || start_brace->TestFlags(PCF_IN_PREPROC) != pc->TestFlags(PCF_IN_PREPROC))
+         {
+            // the body of the loop is not part of the macro that holds the keyword
+            continue;
+         }
+         Chunk *end_brace = start_brace->GetClosingParen();
 
          if (desired_type == CT_WHILE_OF_DO)
          {
